@@ -15,6 +15,7 @@ import MqttVerif.Model.Errors
 import MqttVerif.Model.Retry
 import MqttVerif.Model.BaseClient
 import MqttVerif.Model.KeepAlive
+import MqttVerif.Model.ReconnOpts
 
 open Mqtt
 
@@ -232,6 +233,8 @@ def parseFault (s : String) : Option Fault :=
 def parseCfg (s : String) : Option Cfg :=
   match s.toList with
   | ['t', a, 'a', b, 'c', c] => some { respTimeout := a = '1', always := b = '1', connectTimeout := c = '1' }
+  -- `w1`: the harness configures a long back-off base so that events can land while the loop waits to redial
+  | ['t', a, 'a', b, 'c', c, 'w', _] => some { respTimeout := a = '1', always := b = '1', connectTimeout := c = '1' }
   | _ => none
 
 def parseInb (s : String) : Option (Nat × Nat) :=
@@ -247,6 +250,9 @@ def parseEv (s : String) : Option Ev :=
   | ["unsub", items] => do pure (.app (.unsub (← (items.splitOn ",").mapM Oracle.parseDesc)))
   | ["dial+", i] => do pure (.dialOk (← i.toNat?))
   | ["dial-"] => some .dialFail
+  | ["wait"] => some .waitElapsed
+  | ["cancel"] => some .cancelCtx
+  | ["bad"] => some .peerClose      -- the broker sends a malformed packet: the client ends the connection (same model step)
   | ["ack+", sp] => do pure (.connackOk (← Oracle.b01 sp) [])
   | ["ack+", sp, inb] => do pure (.connackOk (← Oracle.b01 sp) (← (inb.splitOn ",").mapM parseInb))
   | ["ack-"] => some .connackRefused
@@ -279,7 +285,7 @@ def showReq : Req → String
   | .unsub ts => s!"u{String.intercalate ";" (ts.map toHex)}"
 
 def showPhase : Phase → String
-  | .idle => "idle" | .dialGate => "dial" | .connackGate k => s!"connack{k}" | .up k => s!"up{k}" | .exited => "exited"
+  | .idle => "idle" | .backoff => "backoff" | .dialGate => "dial" | .connackGate k => s!"connack{k}" | .up k => s!"up{k}" | .exited => "exited"
 
 def joinOr (l : List String) (sep : String) : String := if l.isEmpty then "-" else String.intercalate sep l
 
@@ -292,7 +298,7 @@ def showWorld (w : World) : String :=
   let bs := sortStrings (w.broker.subs.map (fun e => s!"{toHex e.topic}.{e.qos}"))
   let oe := String.ofList (w.onErrors.map (fun e => match e with | .retryable => 'r' | .timeout => 't'))
   let hd := w.handled.map (fun (k, h, m) => s!"{k}:{h}:{m}")
-  let ret := match w.connectReturned with | none => "-" | some b => if b then "1" else "0"
+  let ret := if w.connectErr then "err" else match w.connectReturned with | none => "-" | some b => if b then "1" else "0"
   String.intercalate " " conns ++
     s!" dl={joinOr (w.broker.delivered.map toString) ","} bs={joinOr bs ","} ak={joinOr (w.broker.acked.map showReq) ","}" ++
     s!" oe={if oe.isEmpty then "-" else oe} hd={joinOr hd ","} tt={w.totalTasks} tr={w.totalRetries} qr={if w.stuck then 0 else w.retryQ.length} qt={w.taskQ.length}" ++
@@ -305,13 +311,20 @@ def planOf (w : World) : String :=
 
 def run (toks : List String) : Option String :=
   match toks with
-  | cfg :: method :: faults :: evs => do
-    let cfg ← parseCfg cfg
+  | cfgStr :: method :: faults :: evs => do
+    let cfg ← parseCfg cfgStr
     let method ← (if method = "P" then some Method.onPublish else if method = "R" then some Method.onPubrel else none)
     let faults ← (if faults = "-" then some [] else (faults.splitOn ",").mapM parseFault)
     let evs ← evs.mapM parseEv
+    -- Timing assumption of the correspondence run, made explicit: unless the configuration asks for a long
+    -- back-off (`w1`), the harness sets a back-off base so short that the timer fires before the next
+    -- scripted event, i.e. every event is followed by `.waitElapsed` (a no-op outside `.backoff`).
+    -- With `w1` the script says itself when the timer fires (`wait`).
+    let auto := !(cfgStr.endsWith "w1")
+    let evs := if auto then evs.flatMap (fun e => [e, Ev.waitElapsed]) else evs
     let s : Script := { cfg, method, faults, evs }
     let ws := execTrace s
+    let ws := if auto then (ws.zipIdx.filter (fun (_, i) => i % 2 = 1)).map (·.1) else ws
     let final := ws.getLastD (init s)
     let settled := final.taskQ.isEmpty && final.retryQ.isEmpty && !final.stuck && (match final.phase with | .up k => (getConn final k).alive | _ => false)
     pure (showWorld final ++ " || " ++ String.intercalate ";" (ws.map planOf) ++
@@ -474,6 +487,10 @@ def handle (toks : List String) : Option String :=
       let bits := String.ofList (ts.map (fun t => if stdIs x t then '1' else '0'))
       let top := match x with | .leaf i => (if i = eofId then "eof" else "leaf") | _ => "node"
       pure s!"top={top} is={bits} retry={showBool (hasRetry x)} rto={showBool (stdAsRto x).isSome}"
+  | ["ropts", ping, to, ka] => do
+    let o : ReconnOpts.Opts := { pingInterval := ← ping.toInt?, timeout := ← to.toInt? }
+    let e := ReconnOpts.effective o (← ka.toNat?)
+    pure s!"ping={e.pingInterval} timeout={e.timeout} keepalive={showBool (ReconnOpts.keepAliveRuns e)} bounded={showBool (ReconnOpts.connectBounded e)}"
   | "retry" :: rest => RetryIO.run rest
   | "bc" :: rest => BCIO.run rest
   | "ka" :: toks => do
